@@ -138,8 +138,10 @@ Lemma one_class_ok :
   /\ op_names (adaptor (encode_cdiagram (one_class_W "Run")) "D") = Some [["Run"]].
 Proof. split; vm_compute; reflexivity. Qed.
 
-(* ... an operation called operator< is read back as "operator": mass_replace deletes = < > ; ( ) and the double quote from every name and value *)
-Lemma name_with_separator_refuted :
-  op_names (adaptor (encode_cdiagram (one_class_W "operator<")) "D") = Some [["operator"]]
-  /\ forallb (fun se => wf_node (we_node (snd se))) (wd_drawn (one_class_W "operator<")) = false.
+(* ... and so is an operation called operator<, operator(), operator== or a:b -- since the repair of K-C19-7 the reader takes a
+   quoted NAME as it is; before, mass_replace deleted = < > ; ( ) and the double quote from it (operator< was read as operator) *)
+Lemma operator_names_ok :
+  forallb (fun nm => forallb (fun se => wf_node (we_node (snd se))) (wd_drawn (one_class_W nm))) ["operator<"; "operator()"; "operator=="; "a:b"] = true
+  /\ map (fun nm => op_names (adaptor (encode_cdiagram (one_class_W nm)) "D")) ["operator<"; "operator()"; "operator=="; "a:b"]
+     = [Some [["operator<"]]; Some [["operator()"]]; Some [["operator=="]]; Some [["a:b"]]].
 Proof. split; vm_compute; reflexivity. Qed.
